@@ -15,9 +15,11 @@ import (
 	"github.com/goghcrow/yae/closure"
 	"github.com/goghcrow/yae/conv"
 	"github.com/goghcrow/yae/debug"
+	"github.com/goghcrow/yae/fun"
 	"github.com/goghcrow/yae/interp"
 	"github.com/goghcrow/yae/parser/oper"
 	"github.com/goghcrow/yae/simrt"
+	"github.com/goghcrow/yae/trans"
 	"github.com/goghcrow/yae/types"
 	"github.com/goghcrow/yae/val"
 	"github.com/goghcrow/yae/vm"
@@ -241,6 +243,9 @@ func pickBackend(r *rng) string {
 	if r.chance(0.08) {
 		return r.pick([]string{"vmlog", "closurelog"})
 	}
+	if r.chance(0.08) {
+		return r.pick([]string{"extvm", "extclosure"})
+	}
 	return backends[r.intn(4)]
 }
 
@@ -288,6 +293,15 @@ func buildEngine(spec EngineSpec, rec recFn) *yae.Expr {
 		e.UseCompiler(interp.Interp)
 	case "dbg":
 		e.UseCompiler(closure.DebugCompile)
+	case "extvm", "extclosure":
+		// an engine set up by hand the way ext/ does it: no implicit built-ins, the operator
+		// table, the translator and the functions are registered explicitly
+		e.UseBuiltIn(false).RegisterOperator(oper.BuiltIn()...).RegisterTranslator(trans.Desugar).RegisterFun(fun.BuiltIn()...)
+		if spec.Backend == "extvm" {
+			e.UseBytecodeCompiler()
+		} else {
+			e.UseClosureCompiler()
+		}
 	case "vmlog":
 		// the engine's own logging switched on (EnableDebug): outcomes must be what they are without it
 		e.UseBytecodeCompiler().EnableDebug(io.Discard)
@@ -844,8 +858,15 @@ var envMakers = map[string]func() interface{}{
 	"map":    envStdMap,
 	"struct": envStdStruct,
 	"small":  envSmall,
+	// the standard environment with ONE name of another type: as a raw run-time environment it is
+	// the standard one's own object after a Put of that name (see shapeClass)
+	"mixn": func() interface{} {
+		m := envStdMap().(map[string]interface{})
+		m["n"] = "forty"
+		return m
+	},
 }
-var envNames = []string{"map", "struct", "none", "small", "alt", "altstruct", "alt2", "alt2struct"}
+var envNames = []string{"map", "struct", "none", "small", "alt", "altstruct", "alt2", "alt2struct", "mixn"}
 
 // deepSnapshot renders a host value for the "host data not modified" invariant.
 func deepSnapshot(v interface{}) string {
@@ -996,6 +1017,9 @@ var progPool = []Prog{
 	{"strtotime(\"2021-05-06 07:08:09 Asia/Tokyo\") - strtotime(\"2021-05-06 07:08:09 Europe/Paris\")", "none", false, false},
 	{"strtotime(\"@86400\") == '1970-01-02 00:00:00 UTC'", "none", false, false},
 	{"'2022-02-03T04:05:06+08:00' >= t", "map", false, false},
+	// number keys beyond the int64 range
+	{"[1e19: \"a\", 1e20: \"b\", 1e21: \"c\", 1e22: \"d\"]", "none", false, false},
+	{"string([1e19: 1, 1e20: 2, 0 - 1e19: 3, 0 - 1e21: 4, 7: 5])", "none", false, false},
 	// number keys that are different keys but closer to each other than the comparison epsilon
 	{"string([0.1 + 0.2: \"sum\", 0.3: \"lit\", 7: \"seven\"])", "none", false, false},
 	{"[0.0000000001: 1, 0.0000000002: 2, 0.0000000003: 3, 0.00000000015: 4]", "none", false, false},
